@@ -210,8 +210,31 @@ EXTRA9 = {
  "C12": " Round 9: the distance-0 / distance-Pi shortcuts of Cell.DistanceToCell / MaxDistanceToCell are taken on Intersects; ShrinkToFit treats the i and j axes alike.",
  "C14": " Round 9: an idle re-application of updates does no per-face work (or the status is re-read under the mutex).",
  "C15": " Round 9: Polygon's Edge, Chain and ChainPosition measure a loop as initEdgesAndIndex did; Polyline query methods test the length before reading a constant vertex index.",
+ "C17": " Round 9: a computed squared chord length becomes a ChordAngle only through a clamp (D37 repaired).",
  "C16": " Round 9: the interpolation error pairs each endpoint's distance with the other endpoint's error.",
  "C20": " Round 9: the accepting test of the tessellator compares with scaledTolerance itself; asin(x / sin(c)) has a sine as numerator (law of sines).",
+}
+
+# sentences appended after the tenth round (DESIGN.md section 9.9)
+EXTRA10 = {
+ "C01": " Round 10: IsValid applies the even-bit mask to lsb(); the ContainsPoint margin is held to the derived (29/3)*2^-53 (D38); no sqrt(1 - E) without a clamp.",
+ "C03": " Round 10: EdgeCrosser's chain state (c, acb) is accessed only by the crosser itself.",
+ "C04": " Round 10: EdgeCrosser's chain state is not read from outside; updates are applied under the exclusive lock.",
+ "C05": " Round 10: s1.IntervalFromEndpoints is not given the longitudes of two points (D39 repaired); normalizeCovering reaches Denormalize from a test of levelMod; no sqrt(1 - E) without a clamp.",
+ "C06": " Round 10: no enumeration value is compared with the extreme of its constants; an append to a struct's slice field goes back into that field.",
+ "C07": " Round 10: WedgeContains tests the triples (a2,b2,b0) and (b0,a0,a2).",
+ "C08": " Round 10: shape ids are treated as sparse in EdgeQuery too; no sqrt(1 - E) without a clamp in the distance targets.",
+ "C09": " Round 10: CellUnion.decode neither sorts nor normalises; NonZero bit helpers get a provably non-zero argument.",
+ "C10": " Round 10: Rect.CapBound extends its centre cap to both diagonal corners; no computed float is compared for equality with a non-zero constant.",
+ "C11": " Round 10: s2intersect emits an overlap only for start <= end (D43 repaired); areSiblings refuses face cells itself.",
+ "C12": " Round 10: sqrt(1 - E) only with E <= 1 in floating point (D41 repaired); computed chord lengths are clamped in cell.go too.",
+ "C14": " Round 10: updates are applied under Lock, not RLock; no append into a shared slice field.",
+ "C15": " Round 10: Cap.decode validates the cap (D40 repaired); bounds are computed from decoded vertices only after the error test; readers and writers are paired (R-WIRE).",
+ "C16": " Round 10: the collinear branch accumulates the smallest endpoint (D42 repaired); every result passes the hemisphere test; PointCross falls back on the computed zero vector; computed chord lengths are clamped.",
+ "C17": " Round 10: PointCross falls back on the computed zero vector; Project's vanishing residual is a known finding (D44).",
+ "C18": " Round 10: IsNormalized's shortcut reads the longitude span.",
+ "C19": " Round 10: Cap.Intersects compares with >=, InteriorIntersects with >; s1.IntervalFromEndpoints is not given two point longitudes.",
+ "C20": " Round 10: EdgeTessellator has no mutable state.",
 }
 
 PENDING = "check for this property is designed (DESIGN.md section 4) but not yet built in this revision; no claim is made"
@@ -230,7 +253,7 @@ def main():
                 "evidence_file": f"/verif/evidence/{p}.json",
                 "replay_cmd_template": f"/verif/bin/s2lint -prop {p} -tier thorough -v   # re-derives the obligations listed in {{path}}",
                 "engine": "s2lint",
-                "level_claimed": {"category": "other", "text": c["text"] + EXTRA.get(p, "") + EXTRA6.get(p, "") + EXTRA7.get(p, "") + EXTRA8.get(p, "") + EXTRA9.get(p, ""), "design_ref": c["design"] + ", sections 9.1-9.8"},
+                "level_claimed": {"category": "other", "text": c["text"] + EXTRA.get(p, "") + EXTRA6.get(p, "") + EXTRA7.get(p, "") + EXTRA8.get(p, "") + EXTRA9.get(p, "") + EXTRA10.get(p, ""), "design_ref": c["design"] + ", sections 9.1-9.9"},
                 "level_note": c["note"],
                 "technique": c["technique"],
             })
